@@ -273,6 +273,8 @@ class MThread(Model):
               (B.eq(s, B.const(0)), "exc:RuntimeError", None, {})]   # cannot join thread before it is started
     if op == "is_alive":
       return [(T, "ok", B.ite(B.eq(s, B.const(1)), B.const(1), B.const(0)), {})]
+    if op == "finish":        # the thread's target function returned
+      return [(T, "ok", B.const(NONE), {self.v("st"): B.const(2)})]
     raise NotImplementedError("Thread.%s" % op)
 
 
